@@ -195,6 +195,30 @@ async fn resolve_container_inner<'a, T: ContainerType + ?Sized>(
     Ok(create_value_object(res))
 }
 
+/// A field error raised before the field has a value (resolver error, guard
+/// rejection, invalid argument) nulls the field itself when its type is
+/// nullable, instead of propagating to the parent.
+fn capture_nullable_field_error<T: ContainerType + ?Sized>(
+    ctx: &Context<'_>,
+    res: ServerResult<Option<Value>>,
+) -> ServerResult<Option<Value>> {
+    match res {
+        Err(err)
+            if ctx
+                .schema_env
+                .registry
+                .types
+                .get(T::type_name().as_ref())
+                .and_then(|ty| ty.field_by_name(ctx.item.node.name.node.as_str()))
+                .is_some_and(|field| !field.ty.ends_with('!')) =>
+        {
+            ctx.add_error(err);
+            Ok(Some(Value::Null))
+        }
+        res => res,
+    }
+}
+
 type BoxFieldFuture<'a> = Pin<Box<dyn Future<Output = ServerResult<(Name, Value)>> + 'a + Send>>;
 
 /// A set of fields on an container that are being selected.
@@ -233,7 +257,11 @@ impl<'a> Fields<'a> {
                             if extensions.is_empty() && field.node.directives.is_empty() {
                                 Ok((
                                     field_name,
-                                    root.resolve_field(&ctx_field).await?.unwrap_or_default(),
+                                    capture_nullable_field_error::<T>(
+                                        &ctx_field,
+                                        root.resolve_field(&ctx_field).await,
+                                    )?
+                                    .unwrap_or_default(),
                                 ))
                             } else {
                                 let type_name = T::type_name();
@@ -271,7 +299,12 @@ impl<'a> Fields<'a> {
                                     field: &field.node,
                                 };
 
-                                let resolve_fut = root.resolve_field(&ctx_field);
+                                let resolve_fut = async {
+                                    capture_nullable_field_error::<T>(
+                                        &ctx_field,
+                                        root.resolve_field(&ctx_field).await,
+                                    )
+                                };
 
                                 if field.node.directives.is_empty() {
                                     futures_util::pin_mut!(resolve_fut);
